@@ -55,7 +55,10 @@ Fixpoint leqb2 {A B : Type} (f : A -> B -> bool) (a : list A) (b : list B) : boo
 Inductive hcase :=
 | HCase (k : hkind) (env : henv) (fd : feeds) (st : list hunit)
         (expo : list f64) (unif : list (f64 * f64)) (calls : list pcall) (t : time)
-        (state1 out : list ounit) (inserts : list (f64 * list Z * bool)).
+        (state1 out : list ounit) (inserts : list (f64 * list Z * bool))
+(** send_event_time only (the candidate was trashed before send_out_state): [calls] are the calls of that phase *)
+| HCaseET (k : hkind) (env : henv) (fd : feeds) (st : list hunit)
+          (expo : list f64) (calls : list pcall) (t : time) (state1 : list ounit).
 
 (** bit 0: expovariate arguments, 1: uniform arguments, 2: potential calls, 3: event time, 4: state after
     send_event_time, 5: out-state, 6: lifting inserts; [None]: the model rejects the in-state *)
@@ -68,6 +71,13 @@ Definition diag_hcase (c : hcase) : option (list bool) :=
           Some [fl_eqb (r_expo r) expo; leqb2 unif_eqb (r_unif r) unif; leqb pcall_eqb (r_calls r) calls;
                 time_eqb (r_time r) t; leqb ounit_eqb (map ounit_of (r_state1 r)) state1;
                 leqb ounit_eqb (map ounit_of (r_out r)) out; leqb insert_eqb (r_inserts r) inserts]
+      end
+  | HCaseET k env fd st expo calls t state1 =>
+      match run_handler k env fd st with
+      | None => None
+      | Some r =>
+          Some [fl_eqb (r_expo r) expo; leqb pcall_eqb (firstn (length calls) (r_calls r)) calls;
+                time_eqb (r_time r) t; leqb ounit_eqb (map ounit_of (r_state1 r)) state1]
       end
   end.
 
